@@ -507,7 +507,7 @@ func (c *memCache) Put(id string, s *type3.ClientState)      { c.m[id] = s }
 func TestArgumentsUntouched(t *testing.T) {
 	s := rt.S("arguments").SetRule("table of exported operations taking byte slices (Ed25519 blind/unblind/blind-sign/sign/verify/new-key, ECDSA create-key/blind/unblind/sign/verify/blind-sign, all decoders with valid and mutated input, the deterministic CreateTokenRequestWithBlind(s) + FinalizeToken(s) of types 1,2,5, the type-3 client + attester + issuer + FinalizeToken run); every byte argument sits in guard(16) || arg || spare(0..64) with a drawn capacity; oracle: the whole buffer (guard, argument, spare) is byte-identical after the call, and a second run with other guard/spare noise gives the same result (deterministic operations) or an equally valid one. non-trivial = call with at least one argument that has spare capacity; distinct by (operation, inputs)")
 	table := ops()
-	rt.Check(t, 1500, 100000, func(t *rapid.T) {
+	rt.Check(t, 1500, 300000, func(t *rapid.T) {
 		o := gen.Pick(t, table, "op")
 		in := o.prepare(t)
 		s.Eval()
@@ -579,7 +579,7 @@ func (h *holder) check() error {
 
 func TestHistories(t *testing.T) {
 	s := rt.S("histories").SetRule("on one request state and its issuer (types 1,2,3,5): the request's fields and Marshal() output, issuer responses and finalized tokens are held (same memory) and copied as soon as they are handed out; then a drawn sequence of 2..8 further calls - finalize with the honest response, finalize with a corrupted response, Marshal again, evaluate the request again, create another request from the same client/issuer, verify the token - after each of which every held value must equal its copy. non-trivial = history with >= 2 calls after the first hand-out; distinct by (type, request bytes, sequence)")
-	rt.Check(t, 200, 20000, func(t *rapid.T) {
+	rt.Check(t, 200, 40000, func(t *rapid.T) {
 		defer rt.Entropy(gen.Seed().Draw(t, "entropy"))()
 		typ := gen.Pick(t, []uint16{1, 2, 3, 5}, "type")
 		sess, err := gen.NewSession(t, typ, gen.SessionOpts{RKeyIdx: -1, MaxBatch: 3})
@@ -753,7 +753,7 @@ func TestRequestObjectReuse(t *testing.T) {
 			return new(batched.BatchedTokenRequest)
 		}},
 	}
-	rt.Check(t, 300, 20000, func(t *rapid.T) {
+	rt.Check(t, 300, 100000, func(t *rapid.T) {
 		k := gen.Pick(t, kinds, "kind")
 		n := gen.UniformRange(t, 2, 5, "decodes")
 		obj := k.newObj()
